@@ -61,6 +61,9 @@ type GenConfig struct {
 	// and fixed) of a record made of fixed-width scalars of different sizes - the record has alignment
 	// padding in memory (C++ struct, NumPy aligned dtype) that the wire format does not have
 	StructArrayPct int
+	// CompositeFlagsPct: chance (percent) that a !flags type with explicit values gets a member that is
+	// not a single bit (`readWrite: 3`, `all: 255`)
+	CompositeFlagsPct int
 	// ArgRefPct: chance (percent) that a generic argument is a reference to a non-generic named
 	// type (record, enum, alias) instead of the default mix; 0 keeps the default distribution.
 	ArgRefPct int
@@ -667,6 +670,28 @@ func (g *gen) enumDef(name string, flags bool) *Def {
 			}
 			d.Values = append(d.Values, v)
 		}
+		if g.cfg.CompositeFlagsPct > 0 && g.chance("flagsComposite", g.cfg.CompositeFlagsPct) {
+			// one more member that is not a single bit: the union of two declared members, or a mask
+			// of low bits (which also covers bits no other member declares)
+			var cv uint64
+			if n >= 2 && g.chance("flagsCompositeOfTwo", 50) {
+				i := g.intn("flagsCompA", n)
+				j := (i + 1 + g.intn("flagsCompB", n-1)) % n
+				cv = d.Values[i].UValue | d.Values[j].UValue
+			} else {
+				k := 2 + g.intn("flagsMaskBits", maxBit-1)
+				cv = uint64(1)<<uint(k) - 1
+			}
+			dup := false
+			for _, ev := range d.Values {
+				if ev.UValue == cv || ev.Symbol == "combined" {
+					dup = true
+				}
+			}
+			if !dup {
+				d.Values = append(d.Values, EnumVal{Symbol: "combined", Unsigned: !signed, Explicit: true, UValue: cv, Value: int64(cv)})
+			}
+		}
 		return d
 	}
 	if g.chance("enumList", 40) {
@@ -1038,6 +1063,9 @@ func GenPackage(t *rapid.T, cfg *GenConfig) *Package {
 	if cfg.BulkStreamPct > 0 && g.chance("bulkStream", cfg.BulkStreamPct) {
 		addBulkStream(root)
 	}
+	if cfg.CompositeFlagsPct > 0 && g.chance("flagsSteps", cfg.CompositeFlagsPct/2) {
+		g.addFlagsSteps(root)
+	}
 	if cfg.StructArrayPct > 0 && !cfg.Excl["array-of-struct"] && g.chance("structArray", cfg.StructArrayPct) {
 		g.addStructArraySteps(root)
 	}
@@ -1175,6 +1203,67 @@ func (g *gen) addStructArraySteps(root *Package) {
 		Field{Name: "padGrid", Type: &Type{Kind: KArray, Elem: ref(), HasDims: true, Dims: []Dim{{Len: &two}, {Len: &three}}}},
 		Field{Name: "padItems", Type: Stream(&Type{Kind: KArray, Elem: ref(), HasDims: true, Dims: []Dim{{Name: "r"}, {Name: "c"}}})},
 		Field{Name: "padDyn", Type: DynArray(ref())})
+}
+
+// addFlagsSteps: a !flags type with members of several bits (a union of two members, a mask that also
+// covers bits no single member declares, possibly a zero member) and steps of the first protocol that
+// hold it directly, in a stream and in a vector.
+func (g *gen) addFlagsSteps(root *Package) {
+	if root.Find("Perm") != nil {
+		return
+	}
+	var proto *Def
+	for _, d := range root.Defs {
+		if d.Kind == DProtocol {
+			proto = d
+			break
+		}
+	}
+	if proto == nil {
+		return
+	}
+	for _, f := range proto.Fields {
+		if strings.HasPrefix(f.Name, "perm") {
+			return
+		}
+	}
+	d := &Def{Kind: DFlags, Name: "Perm"}
+	if g.chance("permBase", 50) {
+		d.Base = []string{"uint8", "uint16", "int32", "uint64"}[g.intn("permBaseIdx", 4)]
+	}
+	signed := IsSignedInt(d.EffectiveBase())
+	add := func(sym string, v uint64) {
+		d.Values = append(d.Values, EnumVal{Symbol: sym, Unsigned: !signed, Explicit: true, UValue: v, Value: int64(v)})
+	}
+	if g.chance("permZero", 30) {
+		add("none", 0)
+	}
+	add("read", 1)
+	add("write", 2)
+	if g.chance("permExec", 60) {
+		add("execute", 4)
+	}
+	switch g.intn("permComposite", 3) {
+	case 0:
+		add("readWrite", 3)
+	case 1:
+		add("all", []uint64{7, 15, 127, 255}[g.intn("permMask", 4)])
+	default:
+		add("readWrite", 3)
+		add("all", []uint64{15, 127}[g.intn("permMask2", 2)])
+	}
+	var defs []*Def
+	inserted := false
+	for _, x := range root.Defs {
+		if x.Kind == DProtocol && !inserted {
+			defs = append(defs, d)
+			inserted = true
+		}
+		defs = append(defs, x)
+	}
+	root.Defs = defs
+	ref := func() *Type { return Ref(root.Namespace, "Perm") }
+	proto.Fields = append(proto.Fields, Field{Name: "perm", Type: ref()}, Field{Name: "perms", Type: Stream(ref())}, Field{Name: "permList", Type: Vector(ref())})
 }
 
 func addBulkStream(root *Package) {
